@@ -930,6 +930,27 @@ impl C14 {
         }
         judge(kind, input, reference_accepts, &events, &result, ctx)?;
 
+        // Nothing but parsing and build() may call back into the user's type: reading, cloning,
+        // comparing and printing a PURL, and turning it back into a builder, must not.
+        if let Ok(purl) = &result {
+            install(script, token_base + 700);
+            guarded(|| {
+                let copy = purl.clone();
+                let _ = copy == *purl;
+                let _ = (copy.name().len(), copy.namespace(), copy.version(), copy.subpath(), copy.qualifiers().len());
+                let _ = copy.to_string();
+                let _builder = copy.into_builder();
+            })
+            .map_err(|p| violation!("C14.panic_in_accessors", "{ctx}: reading / cloning / printing the PURL panicked: {p}"))?;
+            let (stray, _) = take_events();
+            if !stray.is_empty() {
+                return Err(violation!(
+                    "C14.callback_outside_parse_and_build",
+                    "{ctx}: reading, cloning, comparing, printing or into_builder() of the finished PURL called back into the user's type: {stray:?}"
+                ));
+            }
+        }
+
         // Statistics: which faults actually fired, and the reach table.
         let mut history = String::new();
         for e in &events {
